@@ -546,12 +546,161 @@ pub fn defs() -> Vec<CheckDef> {
                     }
                 };
             }
+            "C09" => {
+                d.modes = |t| vec![("main", t.pick(8, 12)), ("zip", t.pick(3, 4))];
+                d.run = |ctx, mode| {
+                    if mode == "zip" {
+                        c09_zip(ctx)
+                    } else {
+                        by_id(&ctx.id).run(ctx, mode)
+                    }
+                };
+                d.replay = |ctx, v| {
+                    if v.get("zip").is_some() {
+                        let choices: Vec<u16> = serde_json::from_value(v["choices"].clone()).map_err(|e| e.to_string())?;
+                        for i in 0..10 {
+                            if let Case::Fail { message, .. } = zip_case(ctx, &choices, 60_000 + i, false) {
+                                return Err(message);
+                            }
+                        }
+                        Ok("10 runs paired one-to-one".into())
+                    } else {
+                        by_id(&ctx.id).replay(ctx, v)
+                    }
+                };
+            }
             "C07" => d.modes = |t| vec![("main", t.pick(8, 12)), ("fold_ts", t.pick(2, 4))],
             "C08" => d.modes = |t| vec![("main", t.pick(8, 12)), ("interval", t.pick(3, 4))],
             _ => {}
         }
     }
     v
+}
+
+/// C09, zip of two streams with arbitrary arrival order: a validity predicate instead of equality.
+fn zip_case(ctx: &Ctx, choices: &[u16], n: u64, shrinking: bool) -> Case {
+    use crate::dynop::{erase, DStream};
+    use crate::gen::Chooser;
+    use crate::obs::JobCtx;
+    use crate::run::{run_job, BuildFn, HostOutcome, JobOutcome};
+    use std::sync::Arc;
+    const OFF: i64 = 1_000_000;
+    let mut ch = Chooser::new(choices);
+    let na = [0usize, 1, 7, 60, 400][ch.below(5)] + ch.below(5);
+    let nb = [0usize, 1, 7, 60, 400][ch.below(5)] + ch.below(5);
+    let (par_a, par_b) = (ch.flag(1, 2), ch.flag(1, 2));
+    let (sh_a, sh_b) = (ch.flag(1, 3), ch.flag(1, 3));
+    let slow_b = ch.flag(1, 3);
+    // both inputs re-partitioned (differently) into blocks with an explicit replication
+    let repart: Option<Repl> = match ch.below(4) {
+        0 => Some(Repl::Limited(2 + ch.below(3) as u8)),
+        1 => Some(Repl::Host),
+        _ => None,
+    };
+    let data: Vec<u16> = (0..24).map(|_| ch.next()).collect();
+    let cfg = Gen::new(&data, &Profile::base()).config(false, false);
+    let sequential = !par_a && !par_b && !sh_a && !sh_b && repart.is_none();
+    let batch = cfg.batch;
+    let build: BuildFn<Option<Vec<i64>>> = Arc::new(move |env, _| {
+        let mk = |n: usize, off: i64, par: bool, sh: bool, slow: bool| -> DStream<i64> {
+            let v: Vec<i64> = (0..n as i64).map(|i| off + i).collect();
+            let s: DStream<i64> = if par {
+                let v = Arc::new(v);
+                erase(env.stream_par_iter(move |id: u64, k: u64| {
+                    let v = v.clone();
+                    let mut i = id as usize;
+                    std::iter::from_fn(move || {
+                        let r = v.get(i).copied();
+                        i += k as usize;
+                        r
+                    })
+                }))
+            } else {
+                erase(env.stream_iter(v.into_iter()))
+            };
+            let s = match batch {
+                Some(b) => s.batch_mode(b.to_mode()),
+                None => s,
+            };
+            let s = if slow {
+                erase(s.map(|x: i64| {
+                    if x % 16 == 0 {
+                        std::thread::sleep(std::time::Duration::from_micros(300));
+                    }
+                    x
+                }))
+            } else {
+                s
+            };
+            if sh || par {
+                // zip needs inputs with equal replication: shuffle parallel inputs
+                erase(s.shuffle())
+            } else {
+                s
+            }
+        };
+        let a = mk(na, 0, par_a, sh_a, false);
+        let b = mk(nb, OFF, par_b, sh_b, slow_b);
+        // forward inputs of zip must have the same replication
+        let (a, b) = if (par_a || sh_a) != (par_b || sh_b) { (erase(a.shuffle()), erase(b.shuffle())) } else { (a, b) };
+        let (a, b) = match repart {
+            Some(r) => (
+                erase(a.repartition_by(r.to_engine(), |x: &i64| *x as u64)),
+                erase(b.repartition_by(r.to_engine(), |_x: &i64| 0u64)),
+            ),
+            None => (a, b),
+        };
+        let out = a.zip(b).map(|(x, y)| x * 4 * OFF + y).collect_vec();
+        Box::new(move || out.get())
+    });
+    let replay = json!({"property": "C09", "zip": {"na": na, "nb": nb, "par": [par_a, par_b], "shuffle": [sh_a, sh_b], "repartition": repart}, "configs": [cfg], "choices": choices});
+    let jctx = JobCtx::new(cfg.delays.clone());
+    let hosts = match run_job(&cfg.layout, AddrSeed { shard: ctx.shard, job: n }, jctx, build, watchdog(ctx.tier, shrinking)) {
+        JobOutcome::Finished(h) => h,
+        JobOutcome::Deadlock(d) => return Case::Fail { message: format!("deadlock: {}", d.diagnosis), replay },
+        JobOutcome::Inconclusive(m) => return Case::Inconclusive(m),
+    };
+    let mut pairs = Vec::new();
+    for (h, o) in hosts.into_iter().enumerate() {
+        match o {
+            HostOutcome::Done(Some(v)) => pairs.extend(v.into_iter().map(|p| (p / (4 * OFF), p % (4 * OFF)))),
+            HostOutcome::Done(None) => {}
+            HostOutcome::Panicked(m) => return Case::Fail { message: format!("host {h} panicked: {m}"), replay },
+        }
+    }
+    let fail = |m: String| Case::Fail { message: m, replay: replay.clone() };
+    if pairs.len() != na.min(nb) {
+        return fail(format!("zip of {na} and {nb} elements produced {} pairs, expected min = {}", pairs.len(), na.min(nb)));
+    }
+    let mut xs: Vec<i64> = pairs.iter().map(|p| p.0).collect();
+    let mut ys: Vec<i64> = pairs.iter().map(|p| p.1).collect();
+    xs.sort();
+    ys.sort();
+    if xs.windows(2).any(|w| w[0] == w[1]) || ys.windows(2).any(|w| w[0] == w[1]) {
+        return fail("zip used an element twice".into());
+    }
+    if xs.iter().any(|x| *x < 0 || *x >= na as i64) || ys.iter().any(|y| *y < OFF || *y >= OFF + nb as i64) {
+        return fail("zip produced a pair with an element that is not in its inputs (or from the wrong side)".into());
+    }
+    if sequential && pairs.iter().enumerate().any(|(i, p)| p.0 != i as i64 || p.1 != OFF + i as i64) {
+        return fail("both inputs are sequential: zip must pair positionally".into());
+    }
+    Case::Pass { nontrivial: if na != nb && na.min(nb) >= 1 { Some(fingerprint(&(na, nb, par_a, par_b, sh_a, sh_b, &cfg))) } else { None } }
+}
+
+fn c09_zip(ctx: &Ctx) -> Report {
+    let mut report = Report::default();
+    let counter = std::cell::Cell::new(0u64);
+    search(ctx, 5, ctx.cases(240, 6000), 30..60, &mut report, |choices, rep, shrinking| {
+        let n = counter.get();
+        counter.set(n + 1);
+        let c = zip_case(ctx, choices, 20_000 + n, shrinking);
+        if let Case::Pass { .. } = c {
+            rep.class("zip_jobs");
+        }
+        c
+    });
+    report
 }
 
 /// Sub-run for the open known finding F7: the recorded job is run under the watchdog; a deadlock
